@@ -92,6 +92,14 @@ theorem allSecret_drop (s : Str) (n : Nat) (h : allSecret s = true) : allSecret 
 
 /-! ## the mask -/
 
+theorem inWindow_zero : inWindow 0 = false := by decide
+
+theorem inWindow_long (n : Nat) (h : inWindow n = true) : visibleChars * 2 < n := by
+  simp only [inWindow, minSecretLen, maxSecretLen, Bool.and_eq_true] at h
+  have := of_decide_eq_true h.1
+  simp only [visibleChars]; omega
+
+
 /-- what `redact_secret` returns on a long token: 4 visible, eight stars, 4 visible -/
 def mask (r : Str) : Str := r.take visibleChars ++ stars 8 ++ r.drop (r.length - visibleChars)
 
@@ -119,12 +127,18 @@ theorem redactSecret_run (r : Str) (hs : allSecret r = true) (hl : visibleChars 
 
 /-! ## the specification: rewrite maximal runs, no indices -/
 
+/-- a run is rewritten iff its length is in the window and the classifier flags it -/
+def flagged (sel : Str → Bool) (r : Str) : Bool := inWindow r.length && sel r
+
 /-- what happens to one maximal secret-char run -/
 def flush (sel : Str → Bool) (run : Str) : Str :=
-  if inWindow run.length && sel run then mask run else run
+  if flagged sel run then mask run else run
 
 def flushCount (sel : Str → Bool) (run : Str) : Nat :=
-  if inWindow run.length && sel run then 1 else 0
+  if flagged sel run then 1 else 0
+
+theorem flagged_nil (sel : Str → Bool) : flagged sel [] = false := by
+  simp [flagged, inWindow_zero]
 
 /-- `spec sel run rest`: `run` is the secret-char run collected so far, `rest` the unread text -/
 def spec (sel : Str → Bool) : Str → Str → Str
@@ -202,28 +216,21 @@ theorem redactText_eq_pipe (sel : Str → Bool) (T : Str) :
 
 /-! ## the scan/select/rebuild pipeline computes `spec` and never panics -/
 
-theorem inWindow_zero : inWindow 0 = false := by decide
-
-theorem inWindow_long (n : Nat) (h : inWindow n = true) : visibleChars * 2 < n := by
-  simp [inWindow, minSecretLen, maxSecretLen] at h
-  have := h.1
-  simp only [visibleChars]; omega
-
 /-- consuming the (at most one) token that closes the current run -/
 theorem pipe_flush (sel : Str → Bool) (T prevA gap run R : Str) (toks : List (Nat × Nat))
     (acc : Str) (k : Nat)
     (hT : T = prevA ++ gap ++ run ++ R) (hs : allSecret run = true) :
     pipe sel T (flushCur (if run.isEmpty then none else some (byteLen prevA + byteLen gap))
                   (byteLen prevA + byteLen gap + run.length) ++ toks) (byteLen prevA) acc k
-      = if (inWindow run.length && sel run) = true
+      = if flagged sel run = true
         then pipe sel T toks (byteLen prevA + byteLen gap + run.length) (acc ++ gap ++ mask run) (k + 1)
         else pipe sel T toks (byteLen prevA) acc k := by
   cases hrun : run with
-  | nil => simp [flushCur, inWindow_zero]
+  | nil => simp [flushCur, flagged_nil]
   | cons x xs =>
     rw [← hrun]
     have hne : run.isEmpty = false := by simp [hrun]
-    simp only [hne, flushCur, emitTok, Bool.false_eq_true, if_false]
+    simp only [hne, flushCur, emitTok, Bool.false_eq_true, if_false, flagged]
     have hsub : byteLen prevA + byteLen gap + run.length - (byteLen prevA + byteLen gap) = run.length := by omega
     rw [hsub]
     by_cases hw : inWindow run.length = true
@@ -319,5 +326,447 @@ theorem redactText_eq_spec (sel : Str → Bool) (T : Str) :
   rw [redactText_eq_pipe]
   have := pipe_scan sel T T [] [] [] [] 0 (by simp) rfl
   simpa [extractTokens, byteLen] using this
+
+/-! ## maximal secret-character runs of a text -/
+
+def emitRun (cur : Str) : List Str := if cur.isEmpty then [] else [cur]
+
+/-- `runsAux cur t`: `cur` is the run being collected -/
+def runsAux : Str → Str → List Str
+  | cur, [] => emitRun cur
+  | cur, c :: cs => if isSecretChar c then runsAux (cur ++ [c]) cs else emitRun cur ++ runsAux [] cs
+
+/-- the maximal runs of secret characters of `t`, left to right -/
+def runsOf (t : Str) : List Str := runsAux [] t
+
+/-- what is left of one input run in the output, as maximal runs -/
+def frag (sel : Str → Bool) (r : Str) : List Str :=
+  if flagged sel r then [r.take visibleChars, r.drop (r.length - visibleChars)] else [r]
+
+theorem runsAux_split (x : Str) (c : Char) (rest : Str) (hc : isSecretChar c = false) :
+    ∀ cur, runsAux cur (x ++ c :: rest) = runsAux cur x ++ runsAux [] rest := by
+  induction x with
+  | nil => intro cur; simp [runsAux, hc]
+  | cons y ys ih =>
+    intro cur
+    simp only [List.cons_append, runsAux]
+    split
+    · exact ih _
+    · rw [ih, List.append_assoc]
+
+theorem runsAux_run (r : Str) (hr : allSecret r = true) :
+    ∀ cur rest, runsAux cur (r ++ rest) = runsAux (cur ++ r) rest := by
+  induction r with
+  | nil => intro cur rest; simp
+  | cons y ys ih =>
+    intro cur rest
+    simp only [allSecret, List.all_cons, Bool.and_eq_true] at hr
+    simp only [List.cons_append, runsAux, hr.1, if_true]
+    rw [ih (by simpa [allSecret] using hr.2)]
+    simp
+
+theorem runsAux_stars (k : Nat) (x : Str) : runsAux [] (stars k ++ x) = runsAux [] x := by
+  induction k with
+  | zero => simp [stars]
+  | succ k ih =>
+    have : isSecretChar '*' = false := by decide
+    simp only [stars, List.replicate_succ, List.cons_append, runsAux, this, Bool.false_eq_true, if_false]
+    simpa [stars, emitRun] using ih
+
+theorem runs_flush (sel : Str → Bool) (run : Str) (hs : allSecret run = true) :
+    runsAux [] (flush sel run) = (emitRun run).flatMap (frag sel) := by
+  cases hrun : run with
+  | nil => simp [flush, flagged_nil, runsAux, emitRun]
+  | cons x xs =>
+    rw [← hrun]
+    have hne : run.isEmpty = false := by simp [hrun]
+    simp only [emitRun, hne, Bool.false_eq_true, if_false, List.flatMap_cons, List.flatMap_nil,
+      List.append_nil, frag, flush]
+    by_cases hf : flagged sel run = true
+    · rw [if_pos hf, if_pos hf]
+      have hlen := inWindow_long run.length (by simp only [flagged, Bool.and_eq_true] at hf; exact hf.1)
+      simp only [visibleChars] at hlen
+      simp only [mask, List.append_assoc]
+      rw [runsAux_run _ (allSecret_take run _ hs)]
+      have hst : stars 8 = '*' :: stars 7 := rfl
+      have hstar : isSecretChar '*' = false := by decide
+      rw [hst]
+      simp only [List.cons_append, runsAux, hstar, Bool.false_eq_true, if_false, List.nil_append]
+      rw [runsAux_stars]
+      have := runsAux_run (run.drop (run.length - visibleChars)) (allSecret_drop run _ hs) [] []
+      simp only [List.append_nil, List.nil_append] at this
+      rw [this]
+      have l1 : (run.take visibleChars).length = 4 := by
+        simp only [List.length_take, visibleChars]; omega
+      have l2 : (run.drop (run.length - visibleChars)).length = 4 := by
+        simp only [List.length_drop, visibleChars]; omega
+      have h1 : (run.take visibleChars).isEmpty = false := by
+        cases h : run.take visibleChars with
+        | nil => rw [h] at l1; simp at l1
+        | cons _ _ => rfl
+      have h2 : (run.drop (run.length - visibleChars)).isEmpty = false := by
+        cases h : run.drop (run.length - visibleChars) with
+        | nil => rw [h] at l2; simp at l2
+        | cons _ _ => rfl
+      simp only [runsAux, emitRun, h1, h2, Bool.false_eq_true, if_false]
+      rfl
+    · rw [if_neg hf, if_neg hf]
+      have := runsAux_run run hs [] []
+      simp only [List.append_nil, List.nil_append] at this
+      rw [this]
+      simp [runsAux, emitRun, hne]
+
+/-- **runs of the output** = fragments of the runs of the input, in order -/
+theorem runs_spec (sel : Str → Bool) (t : Str) :
+    ∀ run, allSecret run = true →
+      runsAux [] (spec sel run t) = (runsAux run t).flatMap (frag sel) := by
+  induction t with
+  | nil => intro run hs; simpa [spec, runsAux] using runs_flush sel run hs
+  | cons c cs ih =>
+    intro run hs
+    by_cases hc : isSecretChar c = true
+    · simp only [spec, runsAux, hc, if_true]
+      exact ih _ (by rw [allSecret_append, hs]; simp [allSecret, hc])
+    · have hc' : isSecretChar c = false := by simpa using hc
+      simp only [spec, runsAux, hc', Bool.false_eq_true, if_false]
+      rw [runsAux_split _ _ _ hc', runs_flush sel run hs, ih [] rfl, List.flatMap_append]
+
+/-- every listed run is a non-empty block of secret characters -/
+theorem runsAux_sound (t : Str) :
+    ∀ cur, allSecret cur = true → ∀ r ∈ runsAux cur t, r ≠ [] ∧ allSecret r = true := by
+  induction t with
+  | nil =>
+    intro cur hs r hr
+    simp only [runsAux, emitRun] at hr
+    split at hr
+    · simp at hr
+    · simp only [List.mem_singleton] at hr
+      subst hr
+      exact ⟨by intro h; simp_all, hs⟩
+  | cons c cs ih =>
+    intro cur hs r hr
+    simp only [runsAux] at hr
+    split at hr
+    · rename_i hc
+      exact ih _ (by rw [allSecret_append, hs]; simp [allSecret, hc]) r hr
+    · rw [List.mem_append] at hr
+      rcases hr with hr | hr
+      · simp only [emitRun] at hr
+        split at hr
+        · simp at hr
+        · simp only [List.mem_singleton] at hr
+          subst hr
+          exact ⟨by intro h; simp_all, hs⟩
+      · exact ih [] rfl r hr
+
+/-- **completeness of `runsOf`**: every maximal block of secret characters of `t` (not
+    preceded and not followed by a secret character) is listed. -/
+theorem runsOf_complete (pre r post : Str) (hr : r ≠ []) (hs : allSecret r = true)
+    (hpre : ∀ c, pre.getLast? = some c → isSecretChar c = false)
+    (hpost : ∀ c, post.head? = some c → isSecretChar c = false) :
+    r ∈ runsOf (pre ++ r ++ post) := by
+  have hne : r.isEmpty = false := by cases r <;> simp_all
+  have key : r ∈ runsAux [] (r ++ post) := by
+    rw [runsAux_run r hs]
+    simp only [List.nil_append]
+    cases post with
+    | nil => simp [runsAux, emitRun, hne]
+    | cons c p =>
+      have := hpost c rfl
+      simp [runsAux, this, emitRun, hne]
+  unfold runsOf
+  rcases List.eq_nil_or_concat pre with h | ⟨pre', c, h⟩
+  · subst h; simpa using key
+  · rw [List.concat_eq_append] at h
+    subst h
+    have hc : isSecretChar c = false := hpre c (by simp)
+    have : pre' ++ [c] ++ r ++ post = pre' ++ c :: (r ++ post) := by simp
+    rw [this, runsAux_split _ _ _ hc]
+    exact List.mem_append_right _ key
+
+/-- a text none of whose runs is flagged is left unchanged -/
+theorem spec_id (sel : Str → Bool) (t : Str) :
+    ∀ run, allSecret run = true → (∀ r ∈ runsAux run t, flagged sel r = false) →
+      spec sel run t = run ++ t ∧ specCount sel run t = 0 := by
+  induction t with
+  | nil =>
+    intro run hs h
+    simp only [spec, specCount, flush, flushCount, List.append_nil]
+    cases hrun : run with
+    | nil => simp [flagged_nil]
+    | cons x xs =>
+      rw [← hrun]
+      have : flagged sel run = false := h run (by simp [runsAux, emitRun, hrun])
+      simp [this]
+  | cons c cs ih =>
+    intro run hs h
+    by_cases hc : isSecretChar c = true
+    · simp only [spec, specCount, hc, if_true]
+      have := ih (run ++ [c]) (by rw [allSecret_append, hs]; simp [allSecret, hc])
+        (by intro r hr; exact h r (by simpa [runsAux, hc] using hr))
+      simpa using this
+    · have hc' : isSecretChar c = false := by simpa using hc
+      simp only [spec, specCount, hc', Bool.false_eq_true, if_false]
+      have h2 := ih [] rfl (by intro r hr; exact h r (by simp [runsAux, hc', hr]))
+      rw [h2.1, h2.2]
+      cases hrun : run with
+      | nil => simp [flush, flushCount, flagged_nil]
+      | cons x xs =>
+        rw [← hrun]
+        have : flagged sel run = false := h run (by simp [runsAux, hc', emitRun, hrun])
+        simp [flush, flushCount, this]
+
+/-! ## consequences for the output -/
+
+/-- no run of `t` is flagged by the classifier inside the length window -/
+def Clean (sel : Str → Bool) (t : Str) : Prop :=
+  ∀ r ∈ runsOf t, inWindow r.length = true → sel r = false
+
+theorem frag_not_flagged (sel : Str → Bool) (r0 r : Str) (h : r ∈ frag sel r0)
+    (hw : inWindow r.length = true) : sel r = false := by
+  unfold frag at h
+  split at h
+  · rename_i hf
+    have hlen := inWindow_long r0.length (by simp only [flagged, Bool.and_eq_true] at hf; exact hf.1)
+    simp only [visibleChars] at hlen
+    have h4 : r.length = 4 := by
+      simp only [List.mem_cons, List.not_mem_nil, or_false] at h
+      rcases h with h | h <;> subst h <;> simp only [List.length_take, List.length_drop, visibleChars] <;> omega
+    rw [h4] at hw
+    exact absurd hw (by decide)
+  · rename_i hf
+    simp only [List.mem_singleton] at h
+    subst h
+    simp only [flagged, hw, Bool.true_and] at hf
+    simpa using hf
+
+theorem spec_clean (sel : Str → Bool) (t : Str) : Clean sel (spec sel [] t) := by
+  intro r hr hw
+  unfold runsOf at hr
+  rw [runs_spec sel t [] rfl, List.mem_flatMap] at hr
+  obtain ⟨r0, _, hr0⟩ := hr
+  exact frag_not_flagged sel r0 r hr0 hw
+
+theorem specCount_eq (sel : Str → Bool) (t : Str) :
+    ∀ run, specCount sel run t = ((runsAux run t).filter (flagged sel)).length := by
+  induction t with
+  | nil =>
+    intro run
+    simp only [specCount, flushCount, runsAux, emitRun]
+    cases hrun : run with
+    | nil => simp [flagged_nil]
+    | cons x xs =>
+      rw [← hrun]
+      have : run.isEmpty = false := by simp [hrun]
+      simp only [this, Bool.false_eq_true, if_false, List.filter_cons, List.filter_nil]
+      split <;> simp
+  | cons c cs ih =>
+    intro run
+    simp only [specCount, runsAux]
+    split
+    · exact ih _
+    · rw [ih, List.filter_append, List.length_append]
+      congr 1
+      simp only [flushCount, emitRun]
+      cases hrun : run with
+      | nil => simp [flagged_nil]
+      | cons x xs =>
+        rw [← hrun]
+        have : run.isEmpty = false := by simp [hrun]
+        simp only [this, Bool.false_eq_true, if_false, List.filter_cons, List.filter_nil]
+        split <;> simp
+
+/-! ## prompts -/
+
+/-- the text of a message that `redact_secrets_from_prompts` rewrites (`none`: tool use) -/
+def msgText : Msg → Option Str
+  | .user t | .assistant t | .thinking t | .plan t => some t
+  | .toolUse _ _ => none
+
+def CleanMsgs (sel : Str → Bool) (ms : List Msg) : Prop :=
+  ∀ m ∈ ms, ∀ t, msgText m = some t → Clean sel t
+
+/-- the specification of `redact_secrets_from_prompts` on one message -/
+def specMsg (sel : Str → Bool) : Msg → Msg
+  | .user t => .user (spec sel [] t)
+  | .assistant t => .assistant (spec sel [] t)
+  | .thinking t => .thinking (spec sel [] t)
+  | .plan t => .plan (spec sel [] t)
+  | .toolUse n i => .toolUse n i
+
+theorem redactMsg_eq (sel : Str → Bool) (m : Msg) :
+    ∃ n, redactMsg sel m = some (specMsg sel m, n) := by
+  cases m <;> simp [redactMsg, specMsg, redactText_eq_spec]
+
+theorem redactMsgs_eq (sel : Str → Bool) (ms : List Msg) :
+    ∃ n, redactMsgs sel ms = some (ms.map (specMsg sel), n) := by
+  induction ms with
+  | nil => exact ⟨0, rfl⟩
+  | cons m ms ih =>
+    obtain ⟨a, ha⟩ := redactMsg_eq sel m
+    obtain ⟨b, hb⟩ := ih
+    exact ⟨a + b, by simp [redactMsgs, ha, hb]⟩
+
+def specPrompt (sel : Str → Bool) (p : Prompt) : Prompt :=
+  { p with messages := p.messages.map (specMsg sel) }
+
+theorem redactPrompts_eq (sel : Str → Bool) (ps : List Prompt) :
+    ∃ n, redactPrompts sel ps = some (ps.map (specPrompt sel), n) := by
+  induction ps with
+  | nil => exact ⟨0, rfl⟩
+  | cons p ps ih =>
+    obtain ⟨a, ha⟩ := redactMsgs_eq sel p.messages
+    obtain ⟨b, hb⟩ := ih
+    exact ⟨a + b, by simp [redactPrompts, ha, hb, specPrompt]⟩
+
+theorem specMsg_clean (sel : Str → Bool) (ms : List Msg) : CleanMsgs sel (ms.map (specMsg sel)) := by
+  intro m hm t ht
+  rw [List.mem_map] at hm
+  obtain ⟨m0, _, rfl⟩ := hm
+  cases m0 <;> simp only [specMsg, msgText, Option.some.injEq, reduceCtorEq] at ht <;> subst ht <;> exact spec_clean sel _
+
+theorem stripMessages_empty (ps : List Prompt) : ∀ p ∈ stripMessages ps, p.messages = [] := by
+  intro p hp
+  simp only [stripMessages, List.mem_map] at hp
+  obtain ⟨q, _, rfl⟩ := hp
+  rfl
+
+theorem enqueue_ok_clears (upload : Prompt → Option Str) (ps : List Prompt) :
+    (enqueue upload ps).2 = true → ∀ p ∈ (enqueue upload ps).1, p.messages = [] := by
+  induction ps with
+  | nil => intro _ p hp; simp [enqueue] at hp
+  | cons q qs ih =>
+    intro hok p hp
+    by_cases he : q.messages.isEmpty = true
+    · simp only [enqueue, he, if_true] at hok hp
+      simp only [List.mem_cons] at hp
+      rcases hp with rfl | hp
+      · simpa using he
+      · exact ih hok p hp
+    · simp only [enqueue, he, Bool.false_eq_true, if_false] at hok hp
+      cases hu : upload q with
+      | none => simp [hu] at hok
+      | some url =>
+        simp only [hu] at hok hp
+        simp only [List.mem_cons] at hp
+        rcases hp with rfl | hp
+        · rfl
+        · exact ih hok p hp
+
+/-- outside `notes` mode the filter leaves no message in any prompt -/
+theorem applyStorageMode_no_messages (sel : Str → Bool) (env : UploadEnv) (mode : Mode)
+    (hm : mode ≠ .notes) (ps out : List Prompt) (h : applyStorageMode sel env mode ps = some out) :
+    ∀ p ∈ out, p.messages = [] := by
+  cases mode with
+  | notes => exact absurd rfl hm
+  | «local» =>
+    simp only [applyStorageMode, Option.some.injEq] at h
+    subst h; exact stripMessages_empty ps
+  | default =>
+    simp only [applyStorageMode] at h
+    split at h
+    · obtain ⟨n, hn⟩ := redactPrompts_eq sel ps
+      simp only [hn, Option.bind_some, Option.some.injEq] at h
+      subst h
+      split
+      · rename_i hok; exact enqueue_ok_clears _ _ hok
+      · exact stripMessages_empty _
+    · simp only [Option.some.injEq] at h
+      subst h; exact stripMessages_empty ps
+
+/-- in `notes` mode the filter output is the message-wise specification -/
+theorem applyStorageMode_notes (sel : Str → Bool) (env : UploadEnv) (ps : List Prompt) :
+    applyStorageMode sel env .notes ps = some (ps.map (specPrompt sel)) := by
+  obtain ⟨n, hn⟩ := redactPrompts_eq sel ps
+  simp [applyStorageMode, hn]
+
+/-- the filter never panics -/
+theorem applyStorageMode_total (sel : Str → Bool) (env : UploadEnv) (mode : Mode) (ps : List Prompt) :
+    ∃ out, applyStorageMode sel env mode ps = some out := by
+  obtain ⟨n, hn⟩ := redactPrompts_eq sel ps
+  cases mode <;> simp [applyStorageMode, hn]
+  split <;> simp
+
+/-! ## histories -/
+
+/-- every prompt of every note ever written satisfies `Q` on its messages -/
+def NotesSat (Q : List Msg → Prop) (st : St) : Prop := ∀ n ∈ st.notes, ∀ p ∈ n, Q p.messages
+
+theorem assemble_sat (Q : List Msg → Prop) (hQ : Q []) (src : List Prompt)
+    (hsrc : ∀ p ∈ src, Q p.messages) : ∀ picks, ∀ p ∈ assemble src picks, Q p.messages := by
+  intro picks
+  induction picks with
+  | nil => intro p hp; simp [assemble] at hp
+  | cons k ks ih =>
+    intro p hp
+    unfold assemble at hp
+    split at hp
+    · exact ih p hp
+    · rename_i q hq
+      simp only [List.mem_cons] at hp
+      rcases hp with rfl | hp
+      · split
+        · exact hsrc q (List.mem_of_getElem? hq)
+        · exact hQ
+      · exact ih p hp
+
+/-- **generic invariant**: if the filter establishes `Q` and every working-log reader that writes
+    to the shared ref filters, `Q` holds of every note after every history. -/
+theorem run_preserves (Q : List Msg → Prop) (hQ : Q []) (sel : Str → Bool) (env : UploadEnv) (mode : Mode)
+    (hfilter : ∀ ps out, applyStorageMode sel env mode ps = some out → ∀ p ∈ out, Q p.messages)
+    (table : List Writer) (hT : tableOk table = true) :
+    ∀ (steps : List Step) (st st' : St),
+      (∀ w picks, Step.write w picks ∈ steps → w ∈ table) →
+      NotesSat Q st → run sel env mode st steps = some st' → NotesSat Q st' := by
+  intro steps
+  induction steps with
+  | nil => intro st st' _ hinv hrun; simp only [run, Option.some.injEq] at hrun; subst hrun; exact hinv
+  | cons s ss ih =>
+    intro st st' hmem hinv hrun
+    simp only [run] at hrun
+    cases hstep : step sel env mode st s with
+    | none => simp [hstep] at hrun
+    | some st1 =>
+      simp only [hstep, Option.bind_some] at hrun
+      refine ih st1 st' (fun w picks h => hmem w picks (List.mem_cons_of_mem _ h)) ?_ hrun
+      cases s with
+      | checkpoint ps =>
+        simp only [step, Option.some.injEq] at hstep
+        subst hstep; exact hinv
+      | write w picks =>
+        have hw : w ∈ table := hmem w picks (List.mem_cons_self ..)
+        have hok : writerOk w = true := by
+          simp only [tableOk, List.all_eq_true] at hT; exact hT w hw
+        simp only [step] at hstep
+        cases hout : (if w.filters = true then applyStorageMode sel env mode (assemble (sources w st) picks)
+            else some (assemble (sources w st) picks)) with
+        | none => simp [hout] at hstep
+        | some out =>
+          simp only [hout, Option.bind_some] at hstep
+          cases htgt : w.target with
+          | stashNotes =>
+            simp only [htgt, Option.some.injEq] at hstep
+            subst hstep; exact hinv
+          | aiNotes =>
+            simp only [htgt, Option.some.injEq] at hstep
+            subst hstep
+            intro n hn p hp
+            simp only [List.mem_cons] at hn
+            rcases hn with rfl | hn
+            · by_cases hf : w.filters = true
+              · simp only [hf, if_true] at hout
+                exact hfilter _ _ hout p hp
+              · simp only [hf] at hout
+                simp only [Bool.false_eq_true, if_false, Option.some.injEq] at hout
+                subst hout
+                have hnr : w.readsWorkingLog = false := by
+                  simp only [writerOk, htgt] at hok
+                  cases h : w.readsWorkingLog <;> simp_all
+                refine assemble_sat Q hQ _ ?_ picks p hp
+                intro q hq
+                simp only [sources, hnr, Bool.false_eq_true, if_false, List.nil_append, List.mem_flatten] at hq
+                obtain ⟨n', hn', hq'⟩ := hq
+                exact hinv n' hn' q hq'
+            · exact hinv n hn p hp
 
 end GitAi.Redact
